@@ -174,6 +174,15 @@ def cases(tier, rng):
                                                             for _ in range(rng.randint(1, 4)))))
             out.append("r%d sock %s / %s" % (k, t, " / ".join(ops)))
             k += 1
+    # generated identities are fresh: a peer that announces the identity the generator would hand out next keeps its place
+    # when the next anonymous peer arrives - three peers, three turns per round
+    for t in ("PUSH", "DEALER"):
+        for inc in (1, 2):
+            ops = ["attach p %s" % peer(t), "attach a %s id=next+%d" % (peer(t), inc), "attach q %s" % peer(t), "attach r %s" % peer(t)]
+            for i in range(8):
+                ops += ["send %02x" % (0x61 + i), "wire p", "wire a", "wire q", "wire r"]
+            out.append("x%d sock %s / %s" % (k, t, " / ".join(ops)))
+            k += 1
     # REQ feedall expansion: a reply on every connection that has an outstanding request is awkward to
     # know statically, so every connection gets one queued reply per send and REQ reads only its requestee's
     res = []
@@ -198,7 +207,7 @@ def cases(tier, rng):
 
 
 def compare_filter(line):
-    return line.startswith("r") or ("wmode" not in line and "wplan" not in line and not line.startswith(("z", "j")))
+    return line.startswith("r") or ("wmode" not in line and "wplan" not in line and "id=next+" not in line and not line.startswith(("z", "j")))
 
 
 def model_cases(case_lines):
